@@ -294,7 +294,7 @@ def c_orc(a):
 
 
 def c_triple(v):
-    return "(%s, %s, %s)" % (c_dict(v[0]), c_dict(v[1]), c_native(v[2]))
+    return "(%s, %s, %s, %s)" % (c_dict(v[0]), c_dict(v[1]), c_res(v[3], c_dict), c_native(v[2]))
 
 
 # ------------------------------------------------------------------ generators
@@ -478,7 +478,7 @@ def mutations(ctx, kt, base, other):
             add("off-curve" if m in ("x", "y") else "d-mismatch", m, "refuse", dict(base, **{m: fl}))
         else:
             add("bitflip", m, "any", dict(base, **{m: fl}))
-        if kt == "OKP":
+        if kt == "OKP" and strict_b64(s):
             o = strict_b64(s)
             add("wrong-length", m, "refuse", dict(base, **{m: b64u(o[:-1])}))
             add("wrong-length", m, "refuse", dict(base, **{m: b64u(o + b"\x00")}))
@@ -486,7 +486,8 @@ def mutations(ctx, kt, base, other):
             if kt == "EC":
                 add("off-curve" if m in ("x", "y") else "d-mismatch", m, "refuse", dict(base, **{m: other[m]}))
             elif kt == "OKP" and "d" in base:
-                add("okp-mismatch", m, "any", dict(base, **{m: other[m]}))
+                # x must be the public key of d (RFC 8037 section 2)
+                add("okp-mismatch", m, "refuse", dict(base, **{m: other[m]}))
             else:
                 add("swap-value", m, "any", dict(base, **{m: other[m]}))
     # --- RSA CRT subsets
@@ -509,10 +510,12 @@ def mutations(ctx, kt, base, other):
             for ops in combos:
                 add("use-ops-consistent", "key_ops", "accept", dict(base, use=use, key_ops=list(ops)))
             for f in foreign:
-                add("use-ops-contradictory", "key_ops", "refuse", dict(base, use=use, key_ops=[f]))
-                add("use-ops-partly-contradictory", "key_ops", "refuse", dict(base, use=use, key_ops=[own[0], f]))
-                add("use-ops-partly-contradictory", "key_ops", "refuse", dict(base, use=use, key_ops=list(own) + [f]))
-                add("use-ops-partly-contradictory", "key_ops", "refuse", dict(base, use=use, key_ops=[f] + list(own)))
+                variants = [("use-ops-contradictory", [f]), ("use-ops-partly-contradictory", [own[0], f]),
+                            ("use-ops-partly-contradictory", list(own) + [f]), ("use-ops-partly-contradictory", [f] + list(own))]
+                if ctx.quick:
+                    variants = [variants[0], rng.choice(variants[1:])] if rng.random() < 0.5 else [rng.choice(variants[1:])]
+                for tg, ops in variants:
+                    add(tg, "key_ops", "refuse", dict(base, use=use, key_ops=ops))
         add("revalue", "use", "any", dict(base, use="foo"))
         add("revalue", "key_ops", "any", dict(base, key_ops=["sign", "bogus"]))
         add("revalue", "key_ops", "any", dict(base, key_ops=["sign", "sign"]))
@@ -563,7 +566,7 @@ def run(ctx):
         def f():
             dd, pp = copy.deepcopy(d), (copy.deepcopy(ps) if ps else None)
             k = JWKRegistry.import_key(dd, parameters=pp) if reg else KEYCLS[kt].import_key(dd, pp)
-            return k, (k.as_dict(), k.as_dict(private=False), native_of(k.raw_value))
+            return k, (k.as_dict(), k.as_dict(private=False), native_of(k.raw_value), call(lambda: k.as_dict(private=True, zz="1")))
         r = call(f)
         eff_kt = d.get("kty") if reg else kt
         ans = orc_answers(eff_kt, d) if isinstance(eff_kt, str) and eff_kt in KT else \
@@ -579,6 +582,14 @@ def run(ctx):
             if got != want or list(got) != list(want):
                 ctx.violation({"kind": "jwk-identity", "kty": kt},
                               "import_key(d).as_dict() does not return the members given: %r -> %r" % (want, got),
+                              {"fn": "import", "registry": reg, "kty": kt, "dict": d, "parameters": ps})
+            nat3, v3 = r[1][1][2], r[1][1][3]
+            is_priv = nat3[0] in ("oct", "rsaprv", "ecprv", "okpprv")
+            if is_priv and (v3[0] != "ok" or v3[1] != {**got, "zz": "1"}):
+                ctx.violation({"kind": "private-export", "kty": kt}, "as_dict(private=True, zz='1') of a private key gave %r" % (v3[1],),
+                              {"fn": "import", "registry": reg, "kty": kt, "dict": d, "parameters": ps})
+            if not is_priv and (v3[0] == "ok" or not isinstance(v3[1], ValueError)):
+                ctx.violation({"kind": "private-export", "kty": kt}, "as_dict(private=True) of a public key did not raise ValueError: %r" % (v3[1],),
                               {"fn": "import", "registry": reg, "kty": kt, "dict": d, "parameters": ps})
         return r
 
@@ -735,7 +746,7 @@ def run(ctx):
             interop("RSA", key, r[1][0], want, "RSA/%d/d-only" % bits, {"fn": "import", "kty": "RSA", "dict": d0})
     # =============== 3. EC: all curves, forced short coordinates
     ec_found = {}
-    ec_dicts = {}
+    ec_dicts, ec_raws, okp_raws = {}, {}, {}
     for crv in CURVE_L:
         nats, got = gen_ec_natives(ctx, crv)
         ec_found[crv] = got
@@ -747,6 +758,7 @@ def run(ctx):
                 pubraw = raw.public_key()
                 check_native_key("EC", ECKey(pubraw, pubraw, None), pubraw, "%s/%s-public" % (crv, tag), None)
         ec_dicts[crv] = [ECKey(raw, raw, None).as_dict() for raw, _ in nats[-2:]]
+        ec_raws[crv] = nats[-1][0]
         # generate_key path
         k = ECKey.generate_key(crv, {"use": "sig"}, auto_kid=False)
         check_native_key("EC", k, k.raw_value, "%s/generated" % crv, {"use": "sig"})
@@ -761,6 +773,7 @@ def run(ctx):
                 pubraw = raw.public_key()
                 check_native_key("OKP", OKPKey(pubraw, pubraw, None), pubraw, "%s/%d-public" % (crv, i), None)
         okp_dicts[crv] = [OKPKey(raw, raw, None).as_dict() for raw in nats[-2:]]
+        okp_raws[crv] = nats[-1]
         k = OKPKey.generate_key(crv, None)
         check_native_key("OKP", k, k.raw_value, "%s/generated" % crv, None)
     # invalid parameters on native keys (validation when the JWK view is built)
@@ -771,10 +784,10 @@ def run(ctx):
             raw = bytes(rng.randrange(256) for _ in range(rng.randrange(0, 40)))
         elif kt == "EC":
             crv = rng.choice(list(CURVE_L))
-            raw = pyca_from_native(("ecprv",) + reconstruct(ec_dicts[crv][0])[0][1:])
+            raw = ec_raws[crv]
         else:
             crv = rng.choice(list(OKP_L))
-            raw = pyca_from_native(reconstruct(okp_dicts[crv][0])[0])
+            raw = okp_raws[crv]
         check_native_key(kt, KEYCLS[kt](raw, raw, ps), raw, "%s/params" % kt, ps)
 
     # =============== 5. fixed-length encoder on arbitrary numbers
@@ -852,8 +865,6 @@ def run(ctx):
         elif expect == "accept" and not accepted:
             ctx.violation({"kind": "wellformed-refused", "kty": kt, "mutation": tag},
                           "well-formed JWK refused (%s, %s): %r" % (name, tag, r[1]), rep)
-        elif accepted and tag == "okp-mismatch" and member == "x":
-            deviations.setdefault("okp-x-not-matching-d-accepted", {"kty": kt, "dict": d})
 
     n_mal = 0
     for kt, name, base, other in bases:
@@ -863,7 +874,12 @@ def run(ctx):
         muts = mutations(ctx, kt, base, other)
         fixture = name.startswith("fixture:")
         if fixture or (ctx.quick and kt == "RSA" and "2048" in name):
-            muts = [m for m in muts if m[0] in ("wellformed", "delete-required", "partial-crt", "retype-choices")] + rng.sample(muts, min(25, len(muts)))
+            muts = [m for m in muts if m[0] in ("wellformed", "delete-required", "partial-crt", "retype-choices")] + rng.sample(muts, min(20, len(muts)))
+        elif ctx.quick:
+            core = ("wellformed", "delete-required", "partial-crt", "retype-choices", "off-curve", "d-mismatch", "okp-mismatch",
+                    "wrong-length", "use-ops-consistent", "use-ops-contradictory", "use-ops-partly-contradictory", "other-crv")
+            rest = [m for m in muts if m[0] not in core]
+            muts = [m for m in muts if m[0] in core] + rng.sample(rest, min(32, len(rest)))
         for tag, member, expect, d in muts:
             n_mal += 1
             regs = (False, True) if (tag in ("unknown-kty", "other-kty", "delete-required", "retype", "retype-choices") and member == "kty") \
@@ -905,7 +921,7 @@ def run(ctx):
         return {rng.choice(["a", "use", "kty"]): rand_val(depth + 1) for _ in range(rng.randrange(0, 3))}
     names = ["kty", "use", "key_ops", "alg", "kid", "x5u", "x5c", "x5t", "x5t#S256", "k", "n", "e", "d", "p", "q", "dp", "dq", "qi", "oth",
              "crv", "x", "y", "foo"]
-    for _ in range(ctx.scale(1000, 40000)):
+    for _ in range(ctx.scale(1000, 20000)):
         kt = rng.choice(list(KT))
         d = {}
         for m in REQUIRED[kt]:
@@ -966,14 +982,17 @@ def run(ctx):
             size += len(c)
         bounds.append((start, len(cases)))
         ends = dict(bounds)
-        still = []
+        sub, back, still = [], [], []
         for si, err in res["errors"]:
             if si not in ends:
                 still.append((si, err)); continue
-            r2 = ev.run(cases[si:ends[si]])
+            for j in range(si, ends[si]):
+                sub.append(cases[j]); back.append(j)
+        if sub:
+            r2 = ev.run(sub)
             res["evaluated"] += r2["evaluated"]
-            res["failing"] += [si + j for j in r2["failing"]]
-            still += [(si + sj, e2) for sj, e2 in r2["errors"]]
+            res["failing"] += [back[j] for j in r2["failing"]]
+            still += [(back[sj], e2) for sj, e2 in r2["errors"]]
         res["errors"] = still
         ctx.notes.append("re-evaluated the case shard(s) whose coqc process died; %d still failing" % len(still))
     ctx.notes.append("timing: proof+generation %.1fs, coq evaluation %.1fs, %d cases, %d chars" % (t_gen, _t.time() - ctx.t0 - t_gen, len(cases), sum(map(len, cases))))
